@@ -15,6 +15,12 @@ function validate(ctx, content)
   end
   parts[#parts + 1] = enc(type(content))
   parts[#parts + 1] = enc(content)
+  -- bounded recursion through a C function (150 nested string.gsub callbacks; Lua's own limit is 200): needs native stack, nothing else
+  local function dive(n)
+    if n == 0 then return "" end
+    return (string.gsub("x", "x", function() return dive(n - 1) end))
+  end
+  if ctx.attrs.dive then dive(tonumber(ctx.attrs.dive)) end
   local spin = tonumber(ctx.attrs.spin or "0") or 0
   local x = 0
   for i = 1, spin do x = x + i % 7 end
